@@ -418,7 +418,8 @@ impl RaftStorage<ClientRequest, ClientResponse> for FileStore {
         let split_off_index = if let Some(v) = delete_through {
             v + 1
         } else {
-            0
+            //None means the whole log is replaced by the snapshot
+            u64::MAX
         };
         self.log_manager
             .send(RaftLogManagerRequest::SplitOff(split_off_index))
